@@ -11,7 +11,7 @@ import numpy as np
 
 from ..core import close, sha_array
 from ..models import stats as ST
-from ..snapshot import snap, diff as snapdiff
+from ..snapshot import snap, semantic_snap, diff as snapdiff
 
 
 class InjectedPlotError(Exception):
@@ -223,8 +223,8 @@ def op_plot(ctx, st, op, prop, info):
     recs = None
     if fn in ("pre_post", "records"):
         recs = M.get_records(st)
-    before = snap(obj)
-    before_recs = snap(recs) if recs is not None else None
+    before = semantic_snap(obj)
+    before_recs = semantic_snap(recs) if recs is not None else None
     captured, exc, out = [], None, None
     old_display = PP.display
     PP.display = lambda s: captured.append(s)
@@ -270,13 +270,13 @@ def op_plot(ctx, st, op, prop, info):
         st.fault_kind = "raise_in_call" if injected else "natural_exception"
     try:
         if judge:
-            after = snap(obj)
+            after = semantic_snap(obj)
             d = snapdiff(before, after)
             ctx.check(d is None, "plot_changed_object",
                       lambda: f"{fn}: the object changed ({d}) " + (f"after the call raised {type(exc).__name__}" if exc is not None else "although the call returned normally"),
                       key={**key, "exit": "injected" if injected else "exception" if exc is not None else "normal"})
             if recs is not None:
-                d = snapdiff(before_recs, snap(recs))
+                d = snapdiff(before_recs, semantic_snap(recs))
                 ctx.check(d is None, "plot_changed_recordings", lambda: f"{fn}: the recordings changed ({d})", key=key)
             if exc is None:
                 ctx.probe("plot_judged_" + fn)
